@@ -101,11 +101,82 @@ func (w *World) specFuncSMT(used map[string]bool) string {
 	return b.String()
 }
 
+var appRe = regexp.MustCompile(`\(([A-Za-z_][\w]*)[ )]`)
+
+// recReach maps every spec function to the recursive spec functions it can reach.
+func (w *World) recReach() map[string]map[string]bool {
+	if w.recCache != nil {
+		return w.recCache
+	}
+	direct := map[string]map[string]bool{}
+	for name, sf := range w.Specs.SpecFuncs {
+		direct[name] = map[string]bool{}
+		if sf.Body == nil {
+			continue
+		}
+		for _, m := range regexp.MustCompile(`([A-Za-z_]\w*)\(`).FindAllStringSubmatch(sf.Src, -1) {
+			if _, ok := w.Specs.SpecFuncs[m[1]]; ok {
+				direct[name][m[1]] = true
+			}
+		}
+	}
+	reach := map[string]map[string]bool{}
+	for name := range direct {
+		seen := map[string]bool{}
+		var dfs func(n string)
+		dfs = func(n string) {
+			for d := range direct[n] {
+				if !seen[d] {
+					seen[d] = true
+					dfs(d)
+				}
+			}
+		}
+		dfs(name)
+		r := map[string]bool{}
+		for n := range seen {
+			if direct[n][n] || (n == name && direct[name][name]) {
+				r[n] = true
+			}
+		}
+		if direct[name][name] {
+			r[name] = true
+		}
+		reach[name] = r
+	}
+	w.recCache = reach
+	return reach
+}
+
+// recFuncsIn lists the recursive spec functions a term depends on.
+func (w *World) recFuncsIn(term string) map[string]bool {
+	out := map[string]bool{}
+	reach := w.recReach()
+	for _, m := range appRe.FindAllStringSubmatch(term, -1) {
+		if r, ok := reach[m[1]]; ok {
+			for k := range r {
+				out[k] = true
+			}
+		}
+	}
+	return out
+}
+
+func subset(a, b map[string]bool) bool {
+	for k := range a {
+		if !b[k] {
+			return false
+		}
+	}
+	return true
+}
+
 func (w *World) hasRec(used map[string]bool) bool {
 	return strings.Contains(w.specFuncSMT(used), "define-fun-rec")
 }
 
 type Obligation struct {
+	SMTLean string // relevance-filtered variant (facts about unrelated recursive spec functions dropped); "" if identical
 	Name   string
 	Class  string
 	Src    string
@@ -127,9 +198,10 @@ type Obligation struct {
 // queries builds one SMT query per assertion of an encoded function.
 func (e *Enc) queries(extraAxioms string) []*Obligation {
 	var out []*Obligation
+	extraAxioms += e.lemmaAxioms()
 	specs := e.W.specFuncSMT(e.used)
 	hasRec := strings.Contains(specs, "define-fun-rec")
-	var decls, facts strings.Builder
+	var decls strings.Builder
 	// declarations first (all of them: later declarations are harmless)
 	for _, it := range e.items {
 		if it.Kind == IDecl {
@@ -151,27 +223,53 @@ func (e *Enc) queries(extraAxioms string) []*Obligation {
 			}
 		}
 	}
+	type fact struct {
+		text string
+		rec  map[string]bool
+	}
+	var facts []fact
+	addFact := func(t string) {
+		facts = append(facts, fact{"(assert " + t + ")\n", e.W.recFuncsIn(t)})
+	}
+	render := func(goalRec map[string]bool) (string, bool) {
+		var b strings.Builder
+		dropped := false
+		for _, f := range facts {
+			if goalRec != nil && !subset(f.rec, goalRec) {
+				dropped = true
+				continue
+			}
+			b.WriteString(f.text)
+		}
+		return b.String(), dropped
+	}
 	for _, it := range e.items {
 		switch it.Kind {
 		case IDef:
-			fmt.Fprintf(&facts, "(assert %s)\n", it.Term)
+			addFact(it.Term)
 		case IAssume:
-			fmt.Fprintf(&facts, "(assert %s)\n", imp(it.Guard, it.Term))
+			addFact(imp(it.Guard, it.Term))
 		case IAssert:
-			q := "(set-option :produce-models true)\n(set-logic ALL)\n" + preamble + specs + extraAxioms + decls.String() + facts.String() +
-				fmt.Sprintf("(assert %s)\n(check-sat)\n", and(it.Guard, not(it.Term)))
+			head := "(set-option :produce-models true)\n(set-logic ALL)\n" + preamble + specs + decls.String() + extraAxioms
+			goal := fmt.Sprintf("(assert %s)\n(check-sat)\n", and(it.Guard, not(it.Term)))
 			if len(values) > 0 {
-				q += "(get-value (" + strings.Join(values, " ") + "))\n"
+				goal += "(get-value (" + strings.Join(values, " ") + "))\n"
+			}
+			full, _ := render(nil)
+			q := head + full + goal
+			lean := ""
+			if fl, dropped := render(e.W.recFuncsIn(it.Term)); dropped {
+				lean = head + fl + goal
 			}
 			w := ""
 			if it.Pos.IsValid() {
 				p := e.W.Fset.Position(it.Pos)
 				w = fmt.Sprintf("%s:%d", shortFile(p.Filename), p.Line)
 			}
-			out = append(out, &Obligation{Name: it.Name, Class: it.Class, Src: it.Src, Where: w, Canary: it.Canary, SMT: q, Values: values, HasRec: hasRec, Func: e.key})
+			out = append(out, &Obligation{Name: it.Name, Class: it.Class, Src: it.Src, Where: w, Canary: it.Canary, SMT: q, SMTLean: lean, Values: values, HasRec: hasRec, Func: e.key})
 			if !it.Canary {
 				// later obligations may assume this one (well-founded: program order)
-				fmt.Fprintf(&facts, "(assert %s)\n", imp(it.Guard, it.Term))
+				addFact(imp(it.Guard, it.Term))
 			}
 		}
 	}
@@ -252,14 +350,35 @@ func solve(o *Obligation, dir string, secs int, all bool) {
 	}
 	ctx, cancel := context.WithCancel(context.Background())
 	defer cancel()
-	ch := make(chan solveResult, len(use))
+	type job struct {
+		sc   solverCmd
+		file string
+	}
+	var jobs []job
 	for _, sc := range use {
-		sc := sc
-		go func() { ch <- runOne(ctx, sc, file, secs) }()
+		jobs = append(jobs, job{sc, file})
+	}
+	if o.SMTLean != "" && !o.Canary {
+		lf := filepath.Join(dir, sanitize(o.Name)+".lean.smt2")
+		os.WriteFile(lf, []byte(o.SMTLean), 0o644)
+		for _, sc := range use[:2] {
+			jobs = append(jobs, job{solverCmd{sc.name + "/lean", sc.args}, lf})
+		}
+	}
+	ch := make(chan solveResult, len(jobs))
+	for _, j := range jobs {
+		j := j
+		go func() {
+			r := runOne(ctx, j.sc, j.file, secs)
+			if strings.HasSuffix(j.sc.name, "/lean") && r.status == "sat" {
+				r.status = "unknown" // a model of the weakened query proves nothing
+			}
+			ch <- r
+		}()
 	}
 	var results []solveResult
 	var best *solveResult
-	for range use {
+	for range jobs {
 		r := <-ch
 		results = append(results, r)
 		if (r.status == "unsat" || r.status == "sat") && best == nil {
